@@ -14,6 +14,8 @@ open Pcore.Format
 #print axioms C20_int_ref_fails_zero
 #print axioms C20_int_ref_fails_alt_zeropad
 #print axioms C20_radix_back
+#print axioms C20_bin_ref
+#print axioms C20_ctor_back
 #print axioms C20_ctor_back_fails
 #print axioms C20_width
 #print axioms C20_pad_side_text
